@@ -17,6 +17,7 @@ fn main() {
         std::process::exit(2);
     }
     util::silence_panics();
+    util::install_logger();
     let a = parse_args(&argv[2..]);
     let n = match (argv[0].as_str(), argv[1].as_str()) {
         ("record", "C01") => codec::record_c01(&a),
